@@ -9,6 +9,7 @@
 import Gzx.Gen.K20
 import Gzx.KernelGuard
 import Gzx.Proofs.K20
+import Gzx.Proofs.BitsArr
 namespace Gzx.Obligations.K20
 open Gzx Gzx.GoM Gzx.Bits Gzx.GoVal
 
@@ -212,5 +213,39 @@ theorem k_pmvSums_eq (counters pattern : List Int) :
   rw [e0] at this
   rw [this]
   cases K20.pmvSums counters pattern 0 0 <;> rfl
+
+/-! ### end to end: the regenerated code on a well-formed `BitArray` is the model the C20 theorems are about -/
+
+when_kernel Gzx.Gen.K20.arrayGet in
+theorem getK_absA (a : WArr) (ha : a.size ≤ a.words.length * 32) :
+    ∀ j (h : j < (absA a).length), getK (words a.words) j = .ok (absA a)[j] := by
+  intro j h
+  have hj : j < a.size := by simpa [absA] using h
+  rw [getK, k_arrayGet_eq, WArr.get_eq_bitAt a j (by omega)]
+  simp [absA]
+
+when_kernel Gzx.Gen.K20.recordPattern in
+/-- **RecordPattern, Go source to run-length specification**: the function regenerated from oned_reader.go, run on the word
+    slice of any `BitArray` with enough words for its size (every array the library builds), agrees with
+    `RunLength.recordPattern` on the array's pixels — the model that `Properties/C20.recordPattern_eq_runs` proves equal
+    to the first `n` maximal run lengths.  (`K20.Agrees`: equal counters on success, NotFound together, panic together.) -/
+theorem k_recordPattern_model (a : WArr) (ha : a.size ≤ a.words.length * 32) (start : Nat) (counters : List Int)
+    (fuel : Nat) (hf : a.size < fuel) :
+    K20.Agrees (Gen.K20.recordPattern fuel (words a.words) (a.size : Int) (start : Int) counters)
+      (RunLength.recordPattern (absA a) start counters.length) := by
+  rw [k_recordPattern_eq _ _ _ _ _ hf]
+  have := K20.recordPattern_agrees (getK (words a.words)) (absA a) start counters (getK_absA a ha)
+  simpa [absA] using this
+
+-- non-vacuity: a 40-pixel row `1100 0111 1000 …` built by `WArr`, three counters from pixel 2: runs 3, 4, 31 (cut by the row end)
+when_kernel Gzx.Gen.K20.recordPattern in
+example : Gen.K20.recordPattern 41 (words [0x1E3, 0]) 40 2 [7, 7, 7] = .ok (false, [3, 4, 31]) := by decide
+when_kernel Gzx.Gen.K20.recordPattern in
+example : Gen.K20.recordPattern 41 (words [0x1E3, 0]) 40 9 [7, 7, 7] = .ok (true, [31, 0, 0]) := by decide
+when_kernel Gzx.Gen.K20.recordPatternInReverse in
+example : Gen.K20.recordPatternInReverse 41 (words [0x1E3, 0]) 40 12 [5, 5] = .ok (false, [3, 4]) := by decide
+when_kernel Gzx.Gen.K20.pmvSums in
+example : Gen.K20.pmvSums [3, 4, 3] [1, 1, 1, 9] = .ok (10, 3) := by decide
+example : (⟨[0x1E3, 0], 40⟩ : WArr).size ≤ (⟨[0x1E3, 0], 40⟩ : WArr).words.length * 32 := by decide
 
 end Gzx.Obligations.K20
